@@ -35,7 +35,7 @@ ASSUMPTIONS = ["values compared to 1e-9 relative; cells within 1e-9 of a discont
                "only required to fail or succeed alike in every order"]
 TABLES = [
     {"F": [1.5, None, 0.25, 5.0], "I": [2, 0, -1, 5], "G": [0.5, 2.0, -2.0, None]},
-    {"F": [None, 3.0, None, -1.0], "I": [1, 1, 2, 2], "G": [0.25, 0.25, 4.0, -0.5]},
+    {"F": [None, 3.0, None, -9998.95], "I": [1, 1, 2, 2], "G": [0.25, -9999.05, 4.0, -0.5]},  # legitimate values NEAR the missing-value marker
     {"F": [0.0, 1.0, 2.0, 3.0], "I": [5, -2, 0, 1], "G": [-1.5, 0.0, 0.0, 2.0]},
     {"F": [2.0, None, 2.0, 2.0], "I": [3, 3, 3, 3], "G": [0.5, None, 0.5, 1.0]},  # constant columns: degenerate statistics
 ]
